@@ -11,7 +11,7 @@
 //   (a) converse: each reference token replaced by an undeclared name must give
 //       >= 1 error, positioned at that token;
 //   (b) run time: the real check engine (sqlite in-memory registry, the OPL
-//       loaded through namespaces.location=base64://..., max_read_depth 50),
+//       loaded through namespaces.location=base64://..., max_read_depth raised, see c11Depth),
 //       every conforming tuple set of <= T tuples over one object per
 //       namespace, every query on a declared (namespace, relation) for every
 //       subject occurring in the set plus a fresh one, default and strict mode:
@@ -68,7 +68,7 @@ type c11Bounds struct {
 	NMax      int // namespaces
 	S         int // total declarations
 	Unions    int // 0 none, 1 unions with at least one plain member, 2 all unions of two
-	Binary    bool
+	Binary    int // binaries of two distinct leaves a,b: 0 none; 1: a&&b, a||b; 2: + !a&&b, a&&!b; 3: + !a||b, a||!b
 	MaxTuples int
 }
 
@@ -180,12 +180,14 @@ func (sh *c11Shape) build(b c11Bounds) {
 		for _, l := range leaves {
 			opts = append(opts, l, Not(l))
 		}
-		if b.Binary {
-			for i := range leaves {
-				for j := i + 1; j < len(leaves); j++ {
-					for _, op := range []byte{'&', '|'} {
-						opts = append(opts, Bin(op, leaves[i], leaves[j]), Bin(op, Not(leaves[i]), leaves[j]), Bin(op, leaves[i], Not(leaves[j])))
-					}
+		for i := range leaves {
+			for j := i + 1; j < len(leaves) && b.Binary > 0; j++ {
+				opts = append(opts, Bin('&', leaves[i], leaves[j]), Bin('|', leaves[i], leaves[j]))
+				if b.Binary >= 2 {
+					opts = append(opts, Bin('&', Not(leaves[i]), leaves[j]), Bin('&', leaves[i], Not(leaves[j])))
+				}
+				if b.Binary >= 3 {
+					opts = append(opts, Bin('|', Not(leaves[i]), leaves[j]), Bin('|', leaves[i], Not(leaves[j])))
 				}
 			}
 		}
@@ -451,7 +453,31 @@ func mutateTok(t Tok) Tok {
 
 func overlaps(aLo, aHi, bLo, bHi int) bool { return aLo <= bHi && bLo <= aHi }
 
-func (r *c11Report) converse(index int, toks []Tok) {
+func c11Parse(text string) (errs []*schema.ParseError, panicked any) {
+	defer func() { panicked = recover() }()
+	_, errs = schema.Parse(text)
+	return
+}
+
+func relHasSubjectSetType(p *Prog, ns, rel string) bool {
+	for _, n := range p.NS {
+		if n.Name != ns {
+			continue
+		}
+		for _, r := range n.Rels {
+			if r.Name == rel {
+				for _, t := range r.Types {
+					if t.Rel != "" {
+						return true
+					}
+				}
+			}
+		}
+	}
+	return false
+}
+
+func (r *c11Report) converse(index int, p *Prog, toks []Tok) {
 	for ti, t := range toks {
 		if t.Ref == RefNone {
 			continue
@@ -462,9 +488,21 @@ func (r *c11Report) converse(index int, toks []Tok) {
 		r.Mutations++
 		kind := refKindName[t.Ref]
 		replay := map[string]any{"part": "converse", "program_index": index, "token": ti, "kind": kind, "doc": text}
-		_, errs := schema.Parse(text)
+		errs, panicked := c11Parse(text)
+		if panicked != nil {
+			r.vio("parse:panic", fmt.Sprintf("Parse panicked (%v) on\n%s", panicked, ind(text)), len(text), replay)
+			continue
+		}
 		if len(errs) == 0 {
-			r.vio("converse:accepted:"+kind, fmt.Sprintf("reference to the undeclared name %s (%s, token %d) is accepted without error:\n%s", mt[ti].S, kind, ti, text), len(text), replay)
+			if t.Ref == RefTravVia {
+				// structural subclass: the traversed relation of this leaf is declared with a SubjectSet<T,R> member type
+				for _, o := range toks {
+					if o.Leaf == t.Leaf && o.Ref == RefTravRel && relHasSubjectSetType(p, t.Owner, strings.Trim(o.S, `"'`)) {
+						kind += ":over-subjectset-typed-relation"
+					}
+				}
+			}
+			r.vio("converse:accepted:"+kind, fmt.Sprintf("reference to the undeclared name %s (%s, token %d) is accepted without error:\n%s", mt[ti].S, kind, ti, ind(text)), len(text), replay)
 			continue
 		}
 		sp := spans[ti]
@@ -501,10 +539,10 @@ func (r *c11Report) converse(index int, toks []Tok) {
 			r.MutationsRejectedOK++
 		case inConstruct:
 			r.vio("converse:error-points-at-another-token-of-the-construct:"+kind,
-				fmt.Sprintf("undeclared %s %s at %d:%d is rejected, but no error span touches that token (errors: %s):\n%s", kind, mt[ti].S, sp.Line, sp.Col, strings.Join(where, "; "), text), len(text), replay)
+				fmt.Sprintf("undeclared %s %s at %d:%d is rejected, but no error span touches that token (errors: %s):\n%s", kind, mt[ti].S, sp.Line, sp.Col, strings.Join(where, "; "), ind(text)), len(text), replay)
 		default:
 			r.vio("converse:error-position-off:"+kind,
-				fmt.Sprintf("undeclared %s %s at %d:%d is rejected, but every error is positioned outside its construct (errors: %s):\n%s", kind, mt[ti].S, sp.Line, sp.Col, strings.Join(where, "; "), text), len(text), replay)
+				fmt.Sprintf("undeclared %s %s at %d:%d is rejected, but every error is positioned outside its construct (errors: %s):\n%s", kind, mt[ti].S, sp.Line, sp.Col, strings.Join(where, "; "), ind(text)), len(text), replay)
 		}
 	}
 }
@@ -512,19 +550,37 @@ func (r *c11Report) converse(index int, toks []Tok) {
 // ---- run-time part ----
 
 type c11Engine struct {
+	t      testing.TB
 	reg    *driver.RegistryDefault
 	ctx    context.Context
 	baseG  int
+	sets   int
 	report *c11Report
 }
 
 func newC11Engine(t testing.TB, rep *c11Report) *c11Engine {
-	reg := driver.NewSqliteTestRegistry(t, false, driver.WithConfig("limit.max_read_depth", c11Depth), driver.WithLogLevel("panic"))
-	reg.Logger().Logger.SetOutput(new(bytes.Buffer)) // parse/namespace log lines are not wanted
-	return &c11Engine{reg: reg, ctx: context.Background(), report: rep}
+	e := &c11Engine{t: t, ctx: context.Background(), report: rep}
+	e.fresh()
+	return e
+}
+
+// fresh replaces the registry (new in-memory database). configx keeps every
+// Set() as one more provider and reloads all of them on each call, so the cost
+// of loading a program grows with the number of programs a registry has seen.
+func (e *c11Engine) fresh() {
+	if e.reg != nil {
+		_ = e.reg.Persister().Connection(e.ctx).Close()
+	}
+	e.reg = driver.NewSqliteTestRegistry(e.t, false, driver.WithConfig("limit.max_read_depth", c11Depth), driver.WithLogLevel("panic"))
+	e.reg.Logger().Logger.SetOutput(new(bytes.Buffer)) // parse/namespace log lines are not wanted
+	e.sets = 0
 }
 
 func (e *c11Engine) configure(opl string, strict bool, wantNS int) error {
+	if e.sets >= 24 {
+		e.fresh()
+	}
+	e.sets++
 	err := e.reg.Config(e.ctx).Set("namespaces", map[string]any{
 		"location":                 "base64://" + base64.StdEncoding.EncodeToString([]byte(opl)),
 		"experimental_strict_mode": strict,
@@ -729,7 +785,7 @@ func (e *c11Engine) runProgram(index int, p *Prog, text string, maxTuples int) e
 					query := fmt.Sprintf("%s:o#%s@%s", qu.NS, qu.Rel, subjNames[si])
 					sig := c11Signature(p, set, class)
 					rep.vio(sig, fmt.Sprintf("accepted program, conforming tuples {%s}, check %s (%s mode) fails with a schema error: %v [%s]\n%s",
-						strings.Join(tnames, ", "), query, mode, res.Err, herodotReason(res.Err), text),
+						strings.Join(tnames, ", "), query, mode, res.Err, herodotReason(res.Err), ind(text)),
 						len(text)+100*len(set)+10*si,
 						map[string]any{"part": "runtime", "program_index": index, "doc": text, "tuples": tnames, "query": query, "mode": mode, "error": res.Err.Error() + ": " + herodotReason(res.Err)})
 				}
@@ -754,6 +810,11 @@ type c11Case struct{ doc, tuples, query string }
 
 var c11Current atomic.Pointer[c11Case]
 
+// ind indents a document so that every line of a multi-line report starts with blanks (the driver echoes such lines).
+func ind(doc string) string {
+	return "    " + strings.ReplaceAll(strings.TrimRight(doc, "\n "), "\n", "\n    ") + "\n  "
+}
+
 func herodotReason(err error) string {
 	var he *herodot.DefaultError
 	if errors.As(err, &he) {
@@ -767,24 +828,22 @@ func c11BoundsFor(thorough bool) []c11Bounds {
 		var out []c11Bounds
 		for _, part := range strings.Split(e, ";") {
 			var b c11Bounds
-			var bin int
-			fmt.Sscanf(part, "%d,%d,%d,%d,%d", &b.NMax, &b.S, &b.Unions, &bin, &b.MaxTuples)
-			b.Binary = bin == 1
+			fmt.Sscanf(part, "%d,%d,%d,%d,%d", &b.NMax, &b.S, &b.Unions, &b.Binary, &b.MaxTuples)
 			out = append(out, b)
 		}
 		return out
 	}
 	if thorough {
 		return []c11Bounds{
-			{NMax: 3, S: 4, Unions: 0, Binary: false, MaxTuples: 3},
-			{NMax: 2, S: 3, Unions: 2, Binary: true, MaxTuples: 3},
-			{NMax: 3, S: 3, Unions: 1, Binary: true, MaxTuples: 2},
+			{NMax: 3, S: 4, Unions: 0, Binary: 0, MaxTuples: 3},
+			{NMax: 2, S: 3, Unions: 2, Binary: 2, MaxTuples: 3},
+			{NMax: 3, S: 3, Unions: 1, Binary: 2, MaxTuples: 2},
 		}
 	}
 	return []c11Bounds{
-		{NMax: 2, S: 4, Unions: 0, Binary: false, MaxTuples: 2},
-		{NMax: 3, S: 3, Unions: 1, Binary: false, MaxTuples: 2},
-		{NMax: 2, S: 3, Unions: 1, Binary: true, MaxTuples: 2},
+		{NMax: 2, S: 4, Unions: 0, Binary: 0, MaxTuples: 2},
+		{NMax: 3, S: 3, Unions: 1, Binary: 0, MaxTuples: 2},
+		{NMax: 2, S: 3, Unions: 0, Binary: 1, MaxTuples: 2},
 	}
 }
 
@@ -828,7 +887,7 @@ func c11Shard(t *testing.T, shard, of int, outPath string) {
 	rep := &c11Report{Vios: map[string]*c11Vio{}}
 	eng := newC11Engine(t, rep)
 	spaces, total := c11Spaces(ev.Thorough())
-	deadline := ev.Deadline(170, 1500)
+	deadline := ev.Deadline(240, 1500)
 	go func() { // runaway guard (machinery, not an oracle): a check that spawns goroutines without bound cannot be decided here
 		for {
 			time.Sleep(20 * time.Millisecond)
@@ -841,7 +900,11 @@ func c11Shard(t *testing.T, shard, of int, outPath string) {
 	}()
 	countOnly := os.Getenv("VERIF_C11_COUNT") != ""
 	seenSpace := map[int]bool{}
-	for i := shard; i < total; i += of {
+	for i := 0; i < total; i++ {
+		// pseudo-random but fixed assignment of indices to shards (i mod W correlates with the first slot's option and unbalances the shards)
+		if int((uint32(i)*2654435761)>>12)%of != shard {
+			continue
+		}
 		if time.Now().After(deadline) {
 			rep.Cut = true
 			break
@@ -850,7 +913,12 @@ func c11Shard(t *testing.T, shard, of int, outPath string) {
 		rep.Programs++
 		toks := p.Tokens(c11Style)
 		text, _ := Join(toks, LayoutPretty, -1, "")
-		_, errs := schema.Parse(text)
+		errs, panicked := c11Parse(text)
+		if panicked != nil {
+			rep.vio("parse:panic", fmt.Sprintf("Parse panicked (%v) on\n%s", panicked, ind(text)), len(text), map[string]any{"part": "parse", "program_index": i, "doc": text})
+			rep.Done++
+			continue
+		}
 		if len(errs) > 0 {
 			rep.Rejected++
 			rep.Done++
@@ -858,7 +926,7 @@ func c11Shard(t *testing.T, shard, of int, outPath string) {
 		}
 		rep.Accepted++
 		if !countOnly {
-			rep.converse(i, toks)
+			rep.converse(i, p, toks)
 		}
 		// the same program may occur in several of the (overlapping) spaces and under several namings: run the engine on one representative
 		if !hasIdleNamespace(p) && isCanonical(p) && !c11InEarlierSpace(spaces, p, i) {
@@ -891,7 +959,7 @@ func c11Shard(t *testing.T, shard, of int, outPath string) {
 // unions and binaries is in all of them); the engine part runs it where it
 // occurs first. Membership is decided from the program's own features.
 func c11InEarlierSpace(spaces []*c11Space, p *Prog, index int) bool {
-	size, unions, binary := 0, 0, false
+	size, unions, binary := 0, 0, 0
 	for _, ns := range p.NS {
 		size += len(ns.Rels) + len(ns.Perms)
 		for _, r := range ns.Rels {
@@ -906,8 +974,17 @@ func c11InEarlierSpace(spaces []*c11Space, p *Prog, index int) bool {
 			}
 		}
 		for _, pm := range ns.Perms {
-			if pm.Expr.Op == '&' || pm.Expr.Op == '|' {
-				binary = true
+			if e := pm.Expr; e.Op == '&' || e.Op == '|' {
+				lvl := 1
+				if e.L.Op == '!' || e.R.Op == '!' {
+					lvl = 2
+					if e.Op == '|' {
+						lvl = 3
+					}
+				}
+				if lvl > binary {
+					binary = lvl
+				}
 			}
 		}
 	}
@@ -915,7 +992,7 @@ func c11InEarlierSpace(spaces []*c11Space, p *Prog, index int) bool {
 		if index < sp.lo+sp.total {
 			return false // this is the space the index belongs to
 		}
-		if len(p.NS) <= sp.b.NMax && size <= sp.b.S && unions <= sp.b.Unions && (!binary || sp.b.Binary) {
+		if len(p.NS) <= sp.b.NMax && size <= sp.b.S && unions <= sp.b.Unions && binary <= sp.b.Binary {
 			return true
 		}
 	}
@@ -947,7 +1024,7 @@ func TestC11(t *testing.T) {
 		text, _ := Join(toks, LayoutPretty, -1, "")
 		fmt.Printf("  replay program %d:\n%s\n", idx, text)
 		if rec.Replay["part"] == "converse" {
-			rep.converse(idx, toks)
+			rep.converse(idx, p, toks)
 		} else {
 			eng := newC11Engine(t, rep)
 			if err := eng.runProgram(idx, p, text, bd.MaxTuples); err != nil {
@@ -1053,14 +1130,14 @@ func TestC11(t *testing.T) {
 	for _, sig := range sortedKeys(tot.Vios) {
 		v := tot.Vios[sig]
 		sigs[sig] = v.Count
-		run.Violation(v.Sig, fmt.Sprintf("%s\n  [%d instance(s) of this signature; the smallest is shown]", v.What, v.Count), v.Replay)
+		run.Violation(v.Sig, fmt.Sprintf("%s  [%d instance(s) of this signature; the smallest is shown]", v.What, v.Count), v.Replay)
 	}
 	for _, s := range tot.Samples {
 		run.Sample(s)
 	}
 	var bounds []map[string]any
 	for _, sp := range spaces {
-		bounds = append(bounds, map[string]any{"namespaces": sp.b.NMax, "declarations": sp.b.S, "unions": sp.b.Unions, "binary_permissions": sp.b.Binary, "max_tuples": sp.b.MaxTuples, "programs": sp.total})
+		bounds = append(bounds, map[string]any{"namespaces": sp.b.NMax, "declarations": sp.b.S, "unions": sp.b.Unions, "binary_permission_level": sp.b.Binary, "max_tuples": sp.b.MaxTuples, "programs": sp.total})
 	}
 	run.Assume(
 		"conforming tuple = (N:o, r, subject set X:o#m) where X[] (m empty) or SubjectSet<X,m> is one of r's declared types; one object per namespace; query subjects are the subject sets occurring in the tuple set plus one fresh subject id",
